@@ -194,7 +194,7 @@ Lemma merge_file_shortcut o b t ot rs :
   merge_file o b t ot rs (wt0 t)
   = Some {| f_main := Some (if negb (bytes_eqb (text b) (text ot)) && negb (bytes_eqb (text t) (text ot))
                             then text ot else text t);
-            f_base := None; f_this := None; f_other := None; conflicted := false |}.
+            f_base := None; f_this := None; f_other := None; f_alike := None; conflicted := false |}.
 Proof.
   unfold reached, merge_file, wt0.
   destruct (bytes_eqb (text b) (text ot)); simpl; [reflexivity|].
@@ -218,8 +218,8 @@ Lemma merge_file_reached o b t ot rs w :
   exists ls flag, text_merge o b t ot rs = Some (ls, flag)
     /\ w = if flag
            then {| f_main := Some (text ls); f_base := Some (text b); f_this := Some (text t);
-                   f_other := Some (text ot); conflicted := true |}
-           else {| f_main := Some (text ls); f_base := None; f_this := None; f_other := None;
+                   f_other := Some (text ot); f_alike := None; conflicted := true |}
+           else {| f_main := Some (text ls); f_base := None; f_this := None; f_other := None; f_alike := None;
                    conflicted := false |}.
 Proof.
   intros R. apply reached_unfold in R as [R1 [R2 R3]]. unfold merge_file. rewrite R1, R2, R3.
@@ -268,24 +268,80 @@ Proof.
   destruct (text_merge_guarded o b t ot rs ls flag Hg Htm) as [-> ->].
   assert (M : f_main (if has_conflict rs
            then {| f_main := Some (text (marked_lines o b t ot rs)); f_base := Some (text b);
-                   f_this := Some (text t); f_other := Some (text ot); conflicted := true |}
+                   f_this := Some (text t); f_other := Some (text ot); f_alike := None; conflicted := true |}
            else {| f_main := Some (text (marked_lines o b t ot rs)); f_base := None; f_this := None;
-                   f_other := None; conflicted := false |}) = Some (text (marked_lines o b t ot rs))).
+                   f_other := None; f_alike := None; conflicted := false |}) = Some (text (marked_lines o b t ot rs))).
   { destruct (has_conflict rs); reflexivity. }
   split; [exact M|]. intros Hc. rewrite M. unfold marked_lines. rewrite merge_lines_clean by exact Hc.
   reflexivity.
 Qed.
 
 (* resolution *)
-Lemma resolve_take o b t ot rs w :
-  merge_file o b t ot rs (wt0 t) = Some w -> conflicted w = true ->
-  resolve TakeThis w = Some {| f_main := Some (text t); f_base := None; f_this := None; f_other := None;
-                               conflicted := false |}
-  /\ resolve TakeOther w = Some {| f_main := Some (text ot); f_base := None; f_this := None; f_other := None;
-                                   conflicted := false |}.
+Lemma merge_alike o b t ot rs w : merge_file o b t ot rs (wt0 t) = Some w -> f_alike w = None.
 Proof.
-  intros H Hc. destruct (helpers_exact o b t ot rs w H) as [Hh _]. destruct (Hh Hc) as [_ [Ht Ho]].
-  unfold resolve. rewrite Hc, Ht, Ho. simpl. split; reflexivity.
+  destruct (reached b t ot) eqn:R.
+  - intros H. destruct (merge_file_reached o b t ot rs w R H) as [ls [[|] [_ ->]]]; reflexivity.
+  - rewrite (merge_file_shortcut o b t ot rs R). intros H. injection H as <-. reflexivity.
+Qed.
+
+(* Conflict.cleanup removes every helper that is present, whatever subset is present,
+   and touches nothing else *)
+Lemma cleanup_all w :
+  f_base (cleanup w) = None /\ f_this (cleanup w) = None /\ f_other (cleanup w) = None
+  /\ f_main (cleanup w) = f_main w /\ f_alike (cleanup w) = f_alike w
+  /\ conflicted (cleanup w) = conflicted w.
+Proof. destruct w as [m [b|] [t|] [o|] a c]; repeat split; reflexivity. Qed.
+
+(* resolve (done / take-this / take-other) on ANY tree state with a recorded conflict -- any
+   subset of the helpers may already be gone: if it succeeds no helper remains, the record is
+   gone, the look-alike is untouched and the file holds what the action says *)
+Lemma resolve_removes_all_helpers act w w' :
+  conflicted w = true -> act <> ANone -> resolve act w = Some w' ->
+  f_base w' = None /\ f_this w' = None /\ f_other w' = None /\ conflicted w' = false
+  /\ f_alike w' = f_alike w
+  /\ f_main w' = match act with TakeThis => f_this w | TakeOther => f_other w | _ => f_main w end.
+Proof.
+  intros Hc Ha. unfold resolve. rewrite Hc. simpl.
+  destruct act; try congruence;
+    destruct w as [[m|] [b|] [t|] [o|] a c]; simpl; intros H; try discriminate;
+    injection H as <-; repeat split; reflexivity.
+Qed.
+
+(* ... and it fails (MalformedTransform, tree unchanged) exactly when the winner helper is gone *)
+Lemma resolve_fails_iff act w :
+  conflicted w = true ->
+  (resolve act w = None <-> (act = TakeThis /\ f_this w = None) \/ (act = TakeOther /\ f_other w = None)).
+Proof.
+  intros Hc. unfold resolve. rewrite Hc. simpl.
+  destruct act; simpl; try (split; [discriminate|intros [[H _]|[H _]]; discriminate]).
+  - destruct (f_this w); split; try discriminate; try tauto.
+    + intros [[_ H]|[H _]]; discriminate.
+  - destruct (f_other w); split; try discriminate; try tauto.
+    + intros [[H _]|[_ H]]; discriminate.
+Qed.
+
+(* after a merge that recorded a conflict, with any helpers removed by hand except the winner *)
+Lemma resolve_take o b t ot rs w rb rt ro alike :
+  merge_file o b t ot rs (wt0 t) = Some w -> conflicted w = true ->
+  (rt = false ->
+   resolve TakeThis (user_edit rb rt ro alike w)
+   = Some {| f_main := Some (text t); f_base := None; f_this := None; f_other := None; f_alike := alike;
+             conflicted := false |})
+  /\ (ro = false ->
+   resolve TakeOther (user_edit rb rt ro alike w)
+   = Some {| f_main := Some (text ot); f_base := None; f_this := None; f_other := None; f_alike := alike;
+             conflicted := false |})
+  /\ resolve ADone (user_edit rb rt ro alike w)
+   = Some {| f_main := f_main w; f_base := None; f_this := None; f_other := None; f_alike := alike;
+             conflicted := false |}.
+Proof.
+  intros H Hc. destruct (helpers_exact o b t ot rs w H) as [Hh _]. destruct (Hh Hc) as [Hb [Ht Ho]].
+  pose proof (merge_alike o b t ot rs w H) as Ha.
+  destruct w as [m wb wt_ wo wa c]; simpl in *. subst.
+  split; [|split].
+  - intros ->. destruct m, rb, ro, alike; reflexivity.
+  - intros ->. destruct m, rb, rt, alike; reflexivity.
+  - destruct rb, rt, ro, alike; reflexivity.
 Qed.
 
 Lemma resolve_unconflicted act w : conflicted w = false -> resolve act w = Some w.
@@ -330,6 +386,6 @@ Example ex_guard_clean :
   let rs := [IA 0 1; IUnchanged 1 2; IB 2 3] in
   guard b t ot = true /\ reached b t ot = true /\ has_conflict rs = false /\
   merge_file W_opts b t ot rs (wt0 t)
-  = Some {| f_main := Some [65; 10; 98; 10; 67; 10]; f_base := None; f_this := None; f_other := None;
+  = Some {| f_main := Some [65; 10; 98; 10; 67; 10]; f_base := None; f_this := None; f_other := None; f_alike := None;
             conflicted := false |}.
 Proof. repeat split; vm_compute; reflexivity. Qed.
